@@ -8,6 +8,7 @@
 (*                                                                         *)
 (* A scenario (variable cfg, chosen in Init, constant afterwards):         *)
 (*   hosts   the sequence the host selection policy offers, each "ok" or   *)
+(*           ("okonce": usable until an attempt on it has ended, then down) or *)
 (*           unusable ("down", "nopool" = no pool for the host, "noconn" = *)
 (*           the pool has no connection): unusable hosts are passed over   *)
 (*           and nothing reaches a server;                                 *)
@@ -112,7 +113,7 @@ DoPick(e) ==
   /\ ipos' = IF h = 0 THEN ipos ELSE h
   /\ IF h = 0
      THEN Finish(e, [r EXCEPT !.cur = 0], IF r.lerr # 0 THEN Res(0, r.lerr, r.lerrx) ELSE Res(0, 0, "noconn"))
-     ELSE ex' = [ex EXCEPT ![e] = [r EXCEPT !.cur = h, !.pc = IF cfg.hosts[h] = "ok" THEN "ready" ELSE "pick"]]
+     ELSE ex' = [ex EXCEPT ![e] = [r EXCEPT !.cur = h, !.pc = IF cfg.hosts[h] \in UsableKinds THEN "ready" ELSE "pick"]]
   /\ Emit(Ev("pick", e, h, 0, "", ""))
 
 \* executeQuery starts the main execution at once (spawned = 1 initially) and a speculative one
@@ -187,7 +188,9 @@ Decide(e, d) ==
   /\ r.pc = "dec"
   /\ d \in DecisionsFor(r.out)
   /\ \/ /\ d = "retry" /\ mayRetry
-        /\ ex' = [ex EXCEPT ![e] = [r EXCEPT !.pc = "ready"]]
+        \* `continue` re-enters the loop: the same host is looked at again (lines 136-152) - a host that went down
+        \* after the attempt ("okonce") is passed over like any unusable host and the next offered host is asked for
+        /\ ex' = [ex EXCEPT ![e] = [r EXCEPT !.pc = IF cfg.hosts[r.cur] = "okonce" THEN "pick" ELSE "ready"]]
      \/ /\ d = "next" /\ mayRetry
         /\ ex' = [ex EXCEPT ![e] = [r EXCEPT !.pc = "pick"]]
      \/ /\ mayStop
